@@ -34,7 +34,7 @@ def units(tier):
             out.append(("sched", hid, 1, 0, 1))
         else:
             bound = 1 if three else 2
-            n = 4 if three else 8
+            n = 4 if three else 32   # 32 shards keep a bound-2 shard far below UNIT_TIMEOUT on a loaded machine
             for i in range(n):
                 out.append(("sched", hid, bound, i, n))
     if tier == "thorough":
